@@ -1,10 +1,12 @@
 import UtilModel.Core.Driver
 import UtilModel.RefCount.Model
+import UtilModel.RefCount.Monitors
 /-! Development driver for this component only:
 `lake env lean --run UtilModel/RefCount/TestDriver.lean refcount < hist` -/
 open UtilModel
 
 def main (args : List String) : IO UInt32 :=
   driverMain [
-    mkEntry "refcount" RefCount.model RefCount.Obs.parse []
+    mkEntry "refcount" RefCount.model RefCount.Obs.parse
+      [MonEntry.ofMonitor "C08" RefCount.monC08, MonEntry.ofMonitor "C09" RefCount.monC09]
   ] args
